@@ -141,6 +141,7 @@ func c17Sequential(r *zsim.Run) {
 	}
 	zsim.Sleep(500 * time.Millisecond)
 	nops := 4 + o.Intn(16)
+	eager := o.Intn(3) == 0
 	nextVal := 0
 	for i := 0; i < nops && !r.Failed(); i++ {
 		if !resolve() {
@@ -224,7 +225,11 @@ func c17Sequential(r *zsim.Run) {
 			zsim.Sleep(d)
 			r.Logf("advanced %v", d)
 		}
-		r.Quiesce()
+		// some runs do not wait for the timing wheel (and whatever else works in the background) to digest an
+		// operation before the next one is issued
+		if !eager || o.Intn(2) == 0 {
+			r.Quiesce()
+		}
 	}
 	if r.Failed() {
 		return
